@@ -97,6 +97,9 @@ def gen_configs(rng, quick):
         dict(D=1, mode="specified", nfs=0), dict(D=2, mode="auto", nfs=0, logcoord=True),
         dict(D=3, mode="det", nfs=10, fun="flat"), dict(D=1, mode="auto", nfs=3),
         dict(D=2, mode="det", nfs=10, unbounded=True), dict(D=2, mode="declared", nfs=3, cons=True),
+        # option values that look like "nothing": random_seed = 0 is a seed, tol_noise = 0 still leaves an exactly repeatable target deterministic
+        dict(D=2, mode="det", nfs=10, fixed_seed=0), dict(D=2, mode="declared", nfs=3, fixed_seed=0),
+        dict(D=2, mode="det", nfs=10, options=dict(tol_noise=0)),
     ]
     if not quick:
         for D in (1, 2, 3):
@@ -111,6 +114,8 @@ def gen_configs(rng, quick):
     for i, p in enumerate(panel):
         c = dict(p)
         c["seed"] = rng.randint(0, 10 ** 6)
+        if "fixed_seed" in c:
+            c["seed"] = c.pop("fixed_seed")
         noisy = c["mode"] != "det"
         c["sigma"] = rng.choice([1.0, 2.0, 3.0]) if noisy else 0.0
         c["budget"] = rng.choice([60, 80, 100, 120] if c["D"] < 3 else [100, 150]) if noisy else rng.choice([40, 60, 90])
